@@ -6,6 +6,7 @@ Pipeline tier: checks/c12_topo.py (ResolveWork.tla topologies concretised into s
 """
 import c12_core
 import c12_topo
+import x11fw
 
 
 def run(ctx, replay):
@@ -16,3 +17,11 @@ def run(ctx, replay):
         return
     c12_core.run_core(ctx)
     c12_topo.run_topo(ctx)
+    # forwarder mode: every upstream attempt (retries, TCP fallbacks, failover) is debited before it is made and the
+    # scripted upstreams never see more packets than the budget (Forward.tla)
+    ctx.overlay_tags.add("x11fw")
+    import os
+    ov = os.path.join(ctx.scratch, "overlay.json")
+    if os.path.exists(ov):
+        os.remove(ov)
+    x11fw.run_tier(ctx, families=("c12",))
